@@ -94,6 +94,25 @@ def match_known(pid, viol, known):
     return None
 
 
+def _pool_run(modname, tasks, procs, deadline):
+    """runs the tasks on a pool of worker processes until the deadline; returns (results, cut_short)"""
+    results = []
+    if not tasks:
+        return results, False
+    ctx = mp.get_context('fork')
+    with ctx.Pool(min(procs, max(1, len(tasks))), initializer=_init, initargs=(modname,)) as pool:
+        it = pool.imap_unordered(_run, tasks, chunksize=1)
+        while True:
+            try:
+                results.append(it.next(timeout=max(1, deadline - time.time())))
+            except StopIteration:
+                break
+            except mp.TimeoutError:
+                pool.terminate()
+                return results, True
+    return results, False
+
+
 # ---------------------------------------------------------------- main entry
 def run_property(modname, tier, seed, replay=None, procs=None):
     t_start = time.time()
@@ -161,22 +180,37 @@ def run_property(modname, tier, seed, replay=None, procs=None):
     results = []
     procs = procs or int(os.environ.get('VERIF_PROCS', '16'))
     timeout = float(os.environ.get('VERIF_TIMEOUT', '3000' if tier == 'thorough' else '900'))
-    if ok or not getattr(mod, 'NEEDS_DRIVER', True) or os.path.exists(lean.DRIVER):
-        ctx = mp.get_context('fork')
-        with ctx.Pool(min(procs, max(1, len(tasks))), initializer=_init, initargs=(modname,)) as pool:
-            it = pool.imap_unordered(_run, tasks, chunksize=1)
-            while True:
-                try:
-                    left = timeout - (time.time() - t_start)
-                    r = it.next(timeout=max(1, left))
-                    results.append(r)
-                except StopIteration:
+    can_run = ok or not getattr(mod, 'NEEDS_DRIVER', True) or os.path.exists(lean.DRIVER)
+    if can_run:
+        results, timed_out = _pool_run(modname, tasks, procs, t_start + timeout)
+        if timed_out:
+            print('TIMEOUT property=%s after %.0fs (%d of %d cases done)' % (pid, time.time() - t_start, len(results), len(tasks)))
+            write_evidence(pid, tier, seed, mod, report, results, [], [], discharged, t_start, timed_out=True)
+            return 2
+    # 5b. widened search: the source of the package differs from the tree this framework was last aligned with
+    #     (harness/srcwatch.py) and the normal streams found nothing -> the same streams with further seeds, within a time limit
+    report['source_changed'] = []
+    if can_run and not replay and tier == 'quick' and os.environ.get('VERIF_WIDEN', '1') != '0':
+        try:
+            from . import srcwatch
+            ch = srcwatch.changed(REPO)
+        except Exception as e:
+            ch = None
+            report['notes'].append('source watch failed: %s' % e)
+        if ch:
+            report['source_changed'] = ch
+            budget = float(os.environ.get('VERIF_WIDEN_S', '480'))
+            k = 0
+            while (k < int(os.environ.get('VERIF_WIDEN_SEEDS', '6')) and time.time() - t_start < budget
+                   and not any(not match_known(pid, v, known) for r in results for v in r.get('violations', []))):
+                k += 1
+                extra = [('w%d:%s' % (k, cid), scn) for cid, scn in mod.scenarios(seed + 7919 * k, tier)]
+                more, cut = _pool_run(modname, extra, procs, min(t_start + budget, t_start + timeout - 30))
+                results += more
+                if cut:
                     break
-                except mp.TimeoutError:
-                    print('TIMEOUT property=%s after %.0fs (%d of %d cases done)' % (pid, time.time() - t_start, len(results), len(tasks)))
-                    pool.terminate()
-                    write_evidence(pid, tier, seed, mod, report, results, [], [], discharged, t_start, timed_out=True)
-                    return 2
+            report['notes'].append('widened search: %d further seed(s) of the generated streams because %d unit(s) of eaopack differ from the baseline tree: %s'
+                                   % (k, len(ch), ', '.join(ch[:8])))
     # 6. verdict
     new_viol, known_hits, disagreements, herrs = [], {}, [], []
     for r in results:
@@ -261,6 +295,8 @@ def write_evidence(pid, tier, seed, mod, report, results, new_viol, disagreement
         'known_findings_reproduced': sorted((known_hits or {}).keys()),
         'build_s': report.get('build_s'), 'broken': report['broken'], 'timed_out': timed_out,
         'explanation': getattr(mod, 'EXPLANATION', ''),
+        'source_units_differing_from_baseline': report.get('source_changed', []),
+        'notes': report.get('notes', []),
     }
     if 'leanchecker' in report:
         cov['leanchecker'] = report['leanchecker']
